@@ -581,7 +581,7 @@ func c41OnlyAppend(c *Ctx, allowed string) {
 			if !ok || CalleeName(&call.Call) != "builtin:append" {
 				return
 			}
-			u, ok := call.Call.Args[0].(*ssa.UnOp)
+			u, ok := BaselineArgs(&call.Call)[0].(*ssa.UnOp)
 			if !ok {
 				return
 			}
